@@ -90,6 +90,11 @@ def exchangeAtomicB (log : Log) : Bool :=
 
 def ExchangeAtomic (log : Log) : Prop := exchangeAtomicB log = true
 
+/-- the same clause with quantifiers -/
+def ExchangeAtomicAll (log : Log) : Prop :=
+  ∀ k c out i, evAt log k = some (.recv c out) → ownSendBefore log c k = some i →
+    ∀ m, i < m → m < k → ∀ c', trafficAt log m = some c' → c' = c
+
 /-! ### call spans -/
 
 /-- position of the return of the call of `c` that starts at `a` (`log.length` if it never returns) -/
